@@ -6,9 +6,10 @@ Require Import TT.Model.Str TT.Model.TypeParse TT.Model.C05Emit TT.Spec.C05Spec 
 Definition c18_tts (t : rty) : str := tts t.
 Definition c18_emit (s : site) (md : mode) (m : mapping) (t : rty) : option str := emit_type s md m t.
 Definition c18_oracle (s : site) (md : mode) (m : mapping) (t : rty) (with_text without_text : str) : bool :=
-  c18_ok (site_is_type s md) m t with_text without_text.
+  c18_full_ok s md m t with_text without_text.
+Definition c18_abs (s : site) (md : mode) (m : mapping) (t : rty) (with_text : str) : bool := c18_abs_ok s md m t with_text.
 Definition c18_dom (m : mapping) (t : rty) : bool := dom_m m t.
 Definition c18_mentions (m : mapping) (t : rty) : bool := mentions m t.
 
 Extraction Language OCaml.
-Extraction "tt_c18.ml" c18_tts c18_emit c18_oracle c18_dom c18_mentions.
+Extraction "tt_c18.ml" c18_tts c18_emit c18_oracle c18_abs c18_dom c18_mentions.
